@@ -1,109 +1,230 @@
 import PoolModel.C18Client
 import Mathlib.Tactic.Linarith
-/-! Helper lemmas for the client bookkeeping theorems of C18. -/
+/-! Helper lemmas for the client bookkeeping theorems of C18 (repaired code, `Variant.fixed`). -/
 namespace Pool.C18
 
-def AllOk (l : List Beh) : Prop := ∀ b ∈ l, b = Beh.ok
+/-- only transport errors (before the challenge / between challenge and subscribe / after the subscribe) hit
+handshakes -/
+def TransportOnly (l : List Beh) : Prop := ∀ b ∈ l, b = Beh.ok ∨ b = Beh.errBC ∨ b = Beh.errAC ∨ b = Beh.errMid
 
-theorem AllOk.headD {l : List Beh} (h : AllOk l) : l.headD .ok = .ok := by
-  cases l with
-  | nil => rfl
-  | cons b t => exact h b (by simp)
+theorem TransportOnly.tail {b : Beh} {l : List Beh} (h : TransportOnly (b :: l)) : TransportOnly l :=
+  fun x hx => h x (List.mem_cons_of_mem _ hx)
 
-theorem AllOk.tail {l : List Beh} (h : AllOk l) : AllOk l.tail := by
-  intro b hb; exact h b (List.mem_of_mem_tail hb)
+/-- the newest stream is alive and carries exactly one acknowledged subscription per map entry -/
+structure Live (c : Client) : Prop where
+  isOpen : c.isOpen = true
+  alive : c.cur.alive = true
+  perm : List.Perm c.cur.subs c.accts
+  succ : c.cur.success = c.cur.subs
+  nodup : c.accts.Nodup
+  chaos : c.chaos = false
 
-theorem isPerm_of_perm {a b : List Nat} (h : List.Perm a b) : isPerm a b = true := by
-  simp [isPerm, h.length_eq, h.count_eq]
+/-- what a successful (possibly nested-reconnecting) step guarantees -/
+structure Post (c c' : Client) (extra : List Nat) : Prop where
+  live : Live c'
+  perm : List.Perm c'.accts (c.accts ++ extra)
+  tr : TransportOnly c'.beh
+  len : c'.beh.length ≤ c.beh.length
+  str : c.streams.length ≤ c'.streams.length
 
-/-- a clean re-subscription loop (every handshake answered `ok`) on a live stream subscribes the given accounts in
-order, each once, and returns nil -/
-theorem resubLoop_clean : ∀ (ord : List Nat) (c : Client) (s : Stream) (ss : List Stream),
-    c.streams = s :: ss → c.isOpen = true → s.alive = true → AllOk c.beh → ord.Nodup → (∀ a ∈ ord, a ∉ c.accts) →
-    ∃ c', c.resubLoop ord = (c', .ok) ∧ c'.accts = c.accts ++ ord ∧
-      c'.streams = { s with subs := s.subs ++ ord, success := s.success ++ ord } :: ss ∧
-      c'.isOpen = true ∧ c'.attempts = c.attempts ∧ c'.mainErrs = c.mainErrs ∧ c'.handlerRes = c.handlerRes ∧
-      c'.chaos = c.chaos ∧ c'.badOrder = c.badOrder ∧ c'.orders = c.orders ∧ AllOk c'.beh ∧ c'.refuse = c.refuse := by
-  intro ord
-  induction ord with
-  | nil => intro c s ss hs _ _ hb _ _; exact ⟨c, rfl, by simp, by simp [hs], ‹_›, rfl, rfl, rfl, rfl, rfl, rfl, hb, rfl⟩
-  | cons a rest ih =>
-    intro c s ss hs ho ha hb hnd hdis
-    have hna : a ∉ c.accts := hdis a (by simp)
-    have hcur : c.cur = s := by simp [Client.cur, hs]
-    -- one handshake
-    let s1 : Stream := { s with subs := s.subs ++ [a], success := s.success ++ [a] }
-    let c1 : Client := { c with accts := c.accts ++ [a], beh := List.tail c.beh, streams := s1 :: ss }
-    have h1 : c.connectAndAuth a = (c1, .ok) := by
-      simp only [Client.connectAndAuth, hna, if_false, ho, if_true, addAcct]
-      have hh : c.beh.head?.getD Beh.ok = Beh.ok := by
-        have := hb.headD; simpa [List.headD_eq_head?_getD] using this
-      simp [Client.cur, hs, ha, hh, ho, Client.setCur, c1, s1]
-    have hnd' := List.nodup_cons.mp hnd
-    obtain ⟨c', hl, hacc, hstr, ho', hat, hm, hh, hch, hbo, hor, hbeh, hrf⟩ :=
-      ih c1 { s with subs := s.subs ++ [a], success := s.success ++ [a] } ss rfl ho ha hb.tail hnd'.2
-        (by
-          intro x hx hin
-          simp only [c1, List.mem_append, List.mem_singleton] at hin
-          rcases hin with hin | hin
-          · exact hdis x (by simp [hx]) hin
-          · subst hin; exact hnd'.1 hx)
-    refine ⟨c', ?_, ?_, ?_, ho', hat, hm, hh, hch, hbo, hor, hbeh, hrf⟩
-    · simp only [Client.resubLoop, h1]; exact hl
-    · simp [hacc, c1]
-    · simp [hstr]
+abbrev hsF (pick : List Nat → List Nat) (n : Nat) := hsLevel Variant.fixed pick n
 
-/-- `HandleServerShutdown` with a clean script: whatever the state of the old stream, one new stream is opened after
-`refuse + 1` attempts and every account of the map is subscribed on it exactly once, in the iteration order -/
-theorem handleShutdown_clean (c : Client) (ord : List Nat) (more : List (List Nat))
-    (hord : c.orders = ord :: more) (hp : List.Perm ord c.accts) (hnd : c.accts.Nodup) (hb : AllOk c.beh) :
-    ∃ c', c.handleShutdown = (c', .ok) ∧ c'.accts = ord ∧
-      c'.cur = { subs := ord, success := ord, alive := true } ∧ c'.isOpen = true ∧
-      c'.streams.length = c.streams.length + 1 ∧ c'.attempts = c.attempts + c.refuse + 1 ∧
-      c'.mainErrs = c.mainErrs ∧ c'.handlerRes = c.handlerRes ∧ c'.chaos = c.chaos ∧ c'.badOrder = c.badOrder ∧
-      c'.orders = more ∧ AllOk c'.beh := by
-  have hbeh1 : (c.closeStream).beh = c.beh := by
-    unfold Client.closeStream Client.setCur; split <;> (try split) <;> rfl
-  have hacc1 : (c.closeStream).accts = c.accts := by
-    unfold Client.closeStream Client.setCur; split <;> (try split) <;> rfl
-  have hord1 : (c.closeStream).orders = c.orders := by
-    unfold Client.closeStream Client.setCur; split <;> (try split) <;> rfl
-  have hlen1 : (c.closeStream).streams.length = c.streams.length := by
-    unfold Client.closeStream Client.setCur; split <;> (try split) <;> simp_all
-  have hatt1 : (c.closeStream).attempts = c.attempts ∧ (c.closeStream).refuse = c.refuse ∧
-      (c.closeStream).mainErrs = c.mainErrs ∧ (c.closeStream).handlerRes = c.handlerRes ∧
-      (c.closeStream).chaos = c.chaos ∧ (c.closeStream).badOrder = c.badOrder := by
-    unfold Client.closeStream Client.setCur; split <;> (try split) <;> simp
-  obtain ⟨hatt, hrf, hme, hhr, hch, hbo⟩ := hatt1
-  let c2 := c.closeStream.connectStream
-  have hndo : ord.Nodup := hp.nodup_iff.mpr hnd
-  obtain ⟨c', hl, hacc, hstr, ho', hat, hm, hh, hch', hbo', hor, hbeh, _⟩ :=
-    resubLoop_clean ord { c2 with accts := [], orders := more } {} c.closeStream.streams
-      (by simp [c2, Client.connectStream]) (by simp [c2, Client.connectStream]) rfl
-      (by simpa [c2, Client.connectStream, hbeh1] using hb) hndo (by simp)
-  refine ⟨c', ?_, by simpa using hacc, ?_, ho', ?_, ?_, ?_, ?_, ?_, ?_, ?_, hbeh⟩
-  · simp only [Client.handleShutdown]
-    have : (c.closeStream.connectStream).orders = ord :: more := by simp [Client.connectStream, hord1, hord]
-    rw [this]
-    have hp' : isPerm ord (c.closeStream.connectStream).accts = true := by
-      apply isPerm_of_perm; simpa [Client.connectStream, hacc1] using hp
-    simp only [hp', Bool.not_true, Bool.false_eq_true, if_false]
-    exact hl
-  · simp [Client.cur, hstr]
-  · simp [hstr, hlen1]
-  · simp [hat, c2, Client.connectStream, hatt, hrf]
-  · simp [hm, c2, Client.connectStream, hme]
-  · simp [hh, c2, Client.connectStream, hhr]
-  · simp [hch', c2, Client.connectStream, hch]
-  · simp [hbo', c2, Client.connectStream, hbo]
-  · simp [hor]
+/-- statement proved by induction on the depth `n` -/
+def PHs (pick : List Nat → List Nat) (n : Nat) : Prop :=
+  ∀ (c : Client) (a : Nat), Live c → a ∉ c.accts → TransportOnly c.beh → c.beh.length ≤ n →
+    ∃ c', hsF pick n c a = (c', .ok) ∧ Post c c' [a]
 
-/-- fields untouched by `setCur` -/
 theorem setCur_fields (c : Client) (f : Stream → Stream) :
-    (c.setCur f).accts = c.accts ∧ (c.setCur f).orders = c.orders ∧ (c.setCur f).beh = c.beh ∧
+    (c.setCur f).accts = c.accts ∧ (c.setCur f).beh = c.beh ∧
     (c.setCur f).refuse = c.refuse ∧ (c.setCur f).attempts = c.attempts ∧ (c.setCur f).chaos = c.chaos ∧
-    (c.setCur f).badOrder = c.badOrder ∧ (c.setCur f).streams.length = c.streams.length ∧
+    (c.setCur f).streams.length = c.streams.length ∧
     (c.setCur f).isOpen = c.isOpen ∧ (c.setCur f).mainErrs = c.mainErrs ∧ (c.setCur f).handlerRes = c.handlerRes := by
   unfold Client.setCur; split <;> simp_all
+
+theorem closeStream_fields (c : Client) :
+    c.closeStream.accts = c.accts ∧ c.closeStream.beh = c.beh ∧ c.closeStream.refuse = c.refuse ∧
+    c.closeStream.attempts = c.attempts ∧ c.closeStream.chaos = c.chaos ∧
+    c.closeStream.streams.length = c.streams.length ∧ c.closeStream.mainErrs = c.mainErrs ∧
+    c.closeStream.handlerRes = c.handlerRes := by
+  unfold Client.closeStream
+  split
+  · obtain ⟨h1, h2, h3, h4, h5, h6, _, h8, h9⟩ := setCur_fields c (fun s => { s with alive := false })
+    exact ⟨h1, h2, h3, h4, h5, h6, h8, h9⟩
+  · simp
+
+/-- the re-subscription loop, given the handshake statement at the same depth -/
+theorem loop_of_P (pick : List Nat → List Nat) (n : Nat) (hP : PHs pick n) :
+    ∀ (ord : List Nat) (c : Client), Live c → ord.Nodup → (∀ a ∈ ord, a ∉ c.accts) → TransportOnly c.beh →
+      c.beh.length ≤ n →
+      ∃ c', c.resubLoop Variant.fixed (hsF pick n) ord = (c', .ok) ∧ Post c c' ord := by
+  intro ord
+  induction ord with
+  | nil =>
+    intro c hl _ _ ht _
+    exact ⟨c, rfl, ⟨hl, by simp, ht, le_refl _, le_refl _⟩⟩
+  | cons a rest ih =>
+    intro c hl hnd hdis ht hlen
+    have hnd' := List.nodup_cons.mp hnd
+    obtain ⟨c1, h1, p1⟩ := hP c a hl (hdis a (by simp)) ht hlen
+    have hdis1 : ∀ x ∈ rest, x ∉ c1.accts := by
+      intro x hx hin
+      have := p1.perm.subset hin
+      simp only [List.mem_append, List.mem_singleton] at this
+      rcases this with h | h
+      · exact hdis x (by simp [hx]) h
+      · subst h; exact hnd'.1 hx
+    obtain ⟨c2, h2, p2⟩ := ih c1 p1.live hnd'.2 hdis1 p1.tr (le_trans p1.len hlen)
+    refine ⟨c2, ?_, ⟨p2.live, ?_, p2.tr, le_trans p2.len p1.len, le_trans p1.str p2.str⟩⟩
+    · simp only [Client.resubLoop, h1]; exact h2
+    · have : List.Perm (c1.accts ++ rest) ((c.accts ++ [a]) ++ rest) := List.Perm.append_right _ p1.perm
+      exact (p2.perm.trans this).trans (by simp)
+
+/-- `HandleServerShutdown`, given the handshake statement at the same depth: whatever state the old stream is in, it
+ends with a live stream carrying every account of the map exactly once -/
+theorem hss_of_P (pick : List Nat → List Nat) (hpick : ∀ l, List.Perm (pick l) l) (n : Nat) (hP : PHs pick n)
+    (c : Client) (hnd : c.accts.Nodup) (hch : c.chaos = false) (ht : TransportOnly c.beh)
+    (hlen : c.beh.length ≤ n) :
+    ∃ c', c.handleShutdown Variant.fixed pick (hsF pick n) = (c', .ok) ∧ Live c' ∧
+      List.Perm c'.accts c.accts ∧ TransportOnly c'.beh ∧ c'.beh.length ≤ c.beh.length ∧
+      c.streams.length < c'.streams.length := by
+  obtain ⟨ha, hb, _, _, hc, hsl, _, _⟩ := closeStream_fields c
+  let c0 : Client := { c.closeStream.connectStream with accts := [] }
+  have hl0 : Live c0 := by
+    refine ⟨rfl, ?_, ?_, ?_, ?_, ?_⟩ <;> simp [c0, Client.connectStream, Client.cur, hc, hch]
+  have hbeh0 : c0.beh = c.beh := by simp [c0, Client.connectStream, hb]
+  have hord : (pick c.accts).Nodup := (hpick _).nodup_iff.mpr hnd
+  obtain ⟨c', h, p⟩ := loop_of_P pick n hP (pick c.accts) c0 hl0 hord (by simp [c0])
+    (by rw [hbeh0]; exact ht) (by rw [hbeh0]; exact hlen)
+  refine ⟨c', ?_, p.live, ?_, p.tr, by simpa [hbeh0] using p.len, ?_⟩
+  · have e : (c.closeStream.connectStream).accts = c.accts := by simp [Client.connectStream, ha]
+    simp only [Client.handleShutdown, e]
+    have : ({ c.closeStream.connectStream with accts := [] } : Client).resubLoop Variant.fixed (hsF pick n)
+        (pick c.accts) = (c', .ok) := h
+    rw [this]
+  · have := p.perm
+    simp only [c0, List.nil_append] at this
+    exact this.trans (hpick _)
+  · have := p.str
+    simp only [c0, Client.connectStream, List.length_cons, hsl] at this
+    omega
+
+theorem handlerLoop_ok (v : Variant) (hsd : Client → Client × HsRes) (fuel : Nat) (c c' : Client)
+    (h : hsd c = (c', .ok)) :
+    Client.handlerLoop v hsd fuel c = { c' with handlerRes := c'.handlerRes ++ [ErrClass.none_] } := by
+  cases fuel <;> simp [Client.handlerLoop, Client.handlerRound, h]
+
+/-- the state a handshake on a live stream starts from, after the map insertion and taking the next behaviour -/
+theorem hs_unfold (v : Variant) (inl : Client → Client × HsRes) (c : Client) (a : Nat) (hl : Live c)
+    (ha : a ∉ c.accts) :
+    Client.connectAndAuth v inl c a =
+      (let c1 : Client := { c with accts := c.accts ++ [a], beh := c.beh.tail }
+       match c.beh.headD .ok with
+       | .ok => (c1.setCur fun s => { s with subs := s.subs ++ [a], success := s.success ++ [a] }, .ok)
+       | .errBC => if v.inlineOnError then inl c1.failStream else (c1.failStream, .errTransport)
+       | .errAC =>
+         if v.inlineOnError then inl (c1.setCur fun s => { s with subs := s.subs ++ [a], alive := false })
+         else (c1.setCur fun s => { s with subs := s.subs ++ [a], alive := false }, .errTransport)
+       | .errMid => inl c1.failStream
+       | .reject => (c1.setCur fun s => { s with subs := s.subs ++ [a] }, .errRejected)
+       | .shutBC => (c1, .errShutdown)
+       | .shutAC => (c1.setCur fun s => { s with subs := s.subs ++ [a] }, .errShutdown)) := by
+  obtain ⟨accts, isOpen, streams, attempts, mainErrs, handlerRes, refuse, beh, chaos⟩ := c
+  have ho : isOpen = true := hl.isOpen
+  subst ho
+  have hal : (streams.headD ({ alive := false } : Stream)).alive = true := hl.alive
+  have ha' : a ∉ accts := ha
+  simp only [Client.connectAndAuth, ha', if_false, if_true, addAcct, Client.cur, hal, Bool.not_true,
+    Bool.false_eq_true]
+  cases beh.headD Beh.ok <;> rfl
+
+/-- a handshake answered `ok` on a live stream -/
+theorem hs_ok_post (c : Client) (a : Nat) (hl : Live c) (ha : a ∉ c.accts) (ht : TransportOnly c.beh) :
+    Post c (({ c with accts := c.accts ++ [a], beh := c.beh.tail } : Client).setCur
+      fun s => { s with subs := s.subs ++ [a], success := s.success ++ [a] }) [a] := by
+  obtain ⟨s, ss, hs⟩ : ∃ s ss, c.streams = s :: ss := by
+    cases hstr : c.streams with
+    | nil => have := hl.alive; simp [Client.cur, hstr] at this
+    | cons s ss => exact ⟨s, ss, rfl⟩
+  have hp : List.Perm s.subs c.accts := by simpa [Client.cur, hs] using hl.perm
+  have hsu : s.success = s.subs := by simpa [Client.cur, hs] using hl.succ
+  have hal : s.alive = true := by simpa [Client.cur, hs] using hl.alive
+  refine ⟨⟨?_, ?_, ?_, ?_, ?_, ?_⟩, ?_, ?_, ?_, ?_⟩
+  · simp [Client.setCur, hs, hl.isOpen]
+  · simp [Client.setCur, hs, Client.cur, hal]
+  · simp only [Client.setCur, hs, Client.cur, List.headD_cons]; exact List.Perm.append_right _ hp
+  · simp [Client.setCur, hs, Client.cur, hsu]
+  · simp only [Client.setCur, hs]
+    exact List.nodup_append.mpr ⟨hl.nodup, by simp, by
+      intro x hx y hy; simp at hy; subst hy; intro e; subst e; exact ha hx⟩
+  · simp [Client.setCur, hs, hl.chaos]
+  · simp [Client.setCur, hs]
+  · simp only [Client.setCur, hs]
+    intro b hb; exact ht b (List.mem_of_mem_tail hb)
+  · simp [Client.setCur, hs]
+  · simp [Client.setCur, hs]
+
+/-- **every handshake of the repaired client ends subscribed**, at any recursion depth that covers the script: a
+transport error at any point of the handshake is absorbed by an inline reconnect that re-subscribes the whole map -/
+theorem PHs_all (pick : List Nat → List Nat) (hpick : ∀ l, List.Perm (pick l) l) : ∀ n, PHs pick n := by
+  intro n
+  induction n with
+  | zero =>
+    intro c a hl ha ht hlen
+    have hnil : c.beh = [] := List.eq_nil_of_length_eq_zero (Nat.le_zero.mp hlen)
+    refine ⟨_, ?_, hs_ok_post c a hl ha ht⟩
+    simp only [hsF, hsLevel]
+    rw [hs_unfold _ _ c a hl ha]
+    simp [hnil]
+  | succ m ih =>
+    intro c a hl ha ht hlen
+    -- the state handed to the inline reconnect in the three fault cases
+    have inl : ∀ c2 : Client, c2.accts = c.accts ++ [a] → c2.beh = c.beh.tail → c2.chaos = false →
+        c.streams.length ≤ c2.streams.length → c.beh ≠ [] →
+        ∃ c', c2.handleShutdown Variant.fixed pick (hsF pick m) = (c', .ok) ∧ Post c c' [a] := by
+      intro c2 h1 h2 h3 h4 hne
+      have hnd2 : c2.accts.Nodup := by
+        rw [h1]
+        exact List.nodup_append.mpr ⟨hl.nodup, by simp, by
+          intro x hx y hy; simp at hy; subst hy; intro e; subst e; exact ha hx⟩
+      have ht2 : TransportOnly c2.beh := by
+        rw [h2]; intro b hb; exact ht b (List.mem_of_mem_tail hb)
+      have hlen2 : c2.beh.length ≤ m := by
+        rw [h2]
+        cases hb : c.beh with
+        | nil => exact absurd hb hne
+        | cons b t => simp [hb] at hlen ⊢; omega
+      obtain ⟨c', h, hl', hp', ht', hlen', hstr'⟩ := hss_of_P pick hpick m ih c2 hnd2 h3 ht2 hlen2
+      refine ⟨c', h, ⟨hl', by rw [← h1]; exact hp', ht', ?_, by omega⟩⟩
+      rw [h2] at hlen'
+      exact le_trans hlen' (by simp)
+    simp only [hsF, hsLevel]
+    rw [hs_unfold _ _ c a hl ha]
+    cases hb : c.beh with
+    | nil => simp only [List.headD_nil]; exact ⟨_, rfl, by simpa [hb] using hs_ok_post c a hl ha ht⟩
+    | cons b t =>
+      have hne : c.beh ≠ [] := by simp [hb]
+      have hbt := ht b (by simp [hb])
+      simp only [List.headD_cons, List.tail_cons]
+      rcases hbt with rfl | rfl | rfl | rfl
+      · exact ⟨_, rfl, by simpa [hb] using hs_ok_post c a hl ha ht⟩
+      · obtain ⟨h1, h2, _, _, h5, h6, _⟩ :=
+          setCur_fields ({ c with accts := c.accts ++ [a], beh := t } : Client) (fun s => { s with alive := false })
+        obtain ⟨c', h, p⟩ := inl (({ c with accts := c.accts ++ [a], beh := t } : Client).failStream)
+          h1 (by rw [Client.failStream, h2, hb]; rfl) (by rw [Client.failStream, h5]; exact hl.chaos)
+          (by rw [Client.failStream, h6]) hne
+        exact ⟨c', by simpa [Variant.fixed, hsF] using h, p⟩
+      · obtain ⟨h1, h2, _, _, h5, h6, _⟩ :=
+          setCur_fields ({ c with accts := c.accts ++ [a], beh := t } : Client)
+            (fun s => { s with subs := s.subs ++ [a], alive := false })
+        obtain ⟨c', h, p⟩ := inl (({ c with accts := c.accts ++ [a], beh := t } : Client).setCur
+            fun s => { s with subs := s.subs ++ [a], alive := false })
+          h1 (by rw [h2, hb]; rfl) (by rw [h5]; exact hl.chaos) (by rw [h6]) hne
+        exact ⟨c', by simpa [Variant.fixed, hsF] using h, p⟩
+      · obtain ⟨h1, h2, _, _, h5, h6, _⟩ :=
+          setCur_fields ({ c with accts := c.accts ++ [a], beh := t } : Client) (fun s => { s with alive := false })
+        obtain ⟨c', h, p⟩ := inl (({ c with accts := c.accts ++ [a], beh := t } : Client).failStream)
+          h1 (by rw [Client.failStream, h2, hb]; rfl) (by rw [Client.failStream, h5]; exact hl.chaos)
+          (by rw [Client.failStream, h6]) hne
+        exact ⟨c', h, p⟩
 
 end Pool.C18
